@@ -27,7 +27,7 @@ m bug2-goto               bug2_124          $G/bug2_124.tla.gotests/bug2_124.go 
   '0,/return iface.Goto("AEchoServer.rcvMsg")/s||return iface.Goto("AEchoServer.sndMsg")|'
 # wrong field in the echoed message (only reachable from the seeded start states)
 m bug2-msg-field          bug2_124          $G/bug2_124.tla.gotests/bug2_124.go \
-  's|{tla.MakeString("to"), exprRead0.ApplyFunction(tla.MakeString("from"))}|{tla.MakeString("to"), iface.Self()}|'
+  's|{tla.MakeString("to"), exprRead0.ApplyFunction(tla.MakeString("from"))}|{tla.MakeString("to"), exprRead0.ApplyFunction(tla.MakeString("body"))}|'
 # change a constant in an indexed write
 m indexing-const          IndexingLocals    $G/IndexingLocals.tla.gotests/IndexingLocals.go \
   's|tla.MakeNumber(21)|tla.MakeNumber(22)|'
@@ -46,7 +46,7 @@ m procspag-const          ProcedureSpaghetti $G/ProcedureSpaghetti.tla.gotests/P
   's|tla.ModulePlusSymbol(exprRead1, tla.MakeNumber(1))|tla.ModulePlusSymbol(exprRead1, tla.MakeNumber(2))|'
 # pass the wrong argument to a call
 m procspag-call-arg       ProcedureSpaghetti $G/ProcedureSpaghetti.tla.gotests/ProcedureSpaghetti.go \
-  's|iface.Call("Proc1", "Arch1.Done", e, resourceRead)|iface.Call("Proc1", "Arch1.Done", e, tla.MakeNumber(7))|'
+  's|iface.Call("Proc1", "Arch1.Done", e, resourceRead)|iface.Call("Proc1", "Arch1.Done", e, tla.ModulePlusSymbol(resourceRead, tla.MakeNumber(1)))|'
 # drop a Write
 m pbfail-drop-write       PBFail4           $G/PBFail4_bug125.tla.gotests/PBFail4_bug125.go \
   's|err = iface.Write(respTyp2, nil, PUT_RESP(iface))|err = nil|'
